@@ -354,7 +354,7 @@ def _check_property(prop, tier, seed, mine, scratch, findings, t0):
     for r, e in confirmed:
         nviol += 1
         oname = obligation_name(r.unit['name'], r.variant, e)
-        rp = os.path.join(VERIF, 'replays', '%s-%s-%s.json' % (prop, r.unit['name'], re.sub(r'\W+', '_', e['fn'] or 'x')))
+        rp = os.path.join(VERIF, 'replays', '%s-%s%s-%s.json' % (prop, r.unit['name'], r.variant, re.sub(r'\W+', '_', e['fn'] or 'x')))
         rec = {'property': prop, 'obligation': oname, 'function': e['fn'], 'unit': r.unit['name'], 'variant': r.variant,
                'source': r.built.fns.get(e['fn'], {}).get('file'), 'verus_message': e['message'], 'failed_clause': e['text'],
                'verus_output': e['rendered'], 'verus_cmd': r.cmd, 'inputs': None}
